@@ -48,12 +48,18 @@ class Sys:
         # misc std
         ins(r'^std::any::type_name::<', lambda e, st, fr, t, a: VConst('type_name'))
         ins(r'^std::mem::drop::<', self.m_mem_drop)
+        ins(r'^<Vec<.*> as Deref(Mut)?>::deref(_mut)?$', lambda e, st, fr, t, a: a[0] if isinstance(a[0], VRef) else NotImplemented)
+        ins(r'^core::slice::<impl \[.*\]>::iter$|^Vec::<.*>::iter$', self.m_slice_iter)
+        ins(r' as Iterator>::filter_map::<', self.m_filter_map)
+        ins(r'^<std::iter::FilterMap<.*> as IntoIterator>::into_iter$', lambda e, st, fr, t, a: a[0])
+        ins(r'^<std::iter::FilterMap<.*> as Iterator>::next$', S.m_veciter_next)
+        ins(r'^<std::iter::FilterMap<.*> as Iterator>::try_for_each::<|^<std::slice::Iter<.*> as Iterator>::try_for_each::<', self.m_try_for_each)
+        ins(r'^<impl Into<(sender::)?Sender<.*>> as Into<.*>>::into$', self.m_into_sender)
         ins(r'^std::mem::forget::<', lambda e, st, fr, t, a: UNIT)
         ins(r'^TypeId::of::<(.*)>$', lambda e, st, fr, t, a: VConst('TypeId:' + re.match(r'^TypeId::of::<(.*)>$', t.func, re.S).group(1)))
         ins(r'^<LazyLock<Atomic(U64|<u64>)> as Deref>::deref$', lambda e, st, fr, t, a: VConst('CONTEXT_ID_COUNTER'))
         ins(r'^Atomic(U64)?(::<u64>)?::fetch_add$', self.m_ctx_id)
         ins(r'^<LazyLock<async_lock::RwLock<HashMap<.*>>> as Deref>::deref$', self.m_registry)
-        ins(r'^<HashMap<.*> as Default>::default$', lambda e, st, fr, t, a: VAgg(name='HashMap', extra={'items': ()}))
         ins(r'^<EnvironmentConfig as Default>::default$', lambda e, st, fr, t, a: VAgg(name='EnvironmentConfig', fields={('f', 0): NONE, ('f', 1): VScalar(False)}, extra={'fieldnames': ('timeout', 'fail_on_timeout')}))
         ins(r'^futures::stream::poll_fn::<', lambda e, st, fr, t, a: VAgg(name='PollFn', fields={('f', 0): a[0]}))
         ins(r'^<futures::stream::PollFn<.*> as StreamExt>::next$', lambda e, st, fr, t, a: VAgg(name='StreamNext', fields={('f', 0): a[0]}))
@@ -109,6 +115,77 @@ class Sys:
         depth = len(st.frames)
         self.drop_value(st, args[0], ty, 'mem::drop')
         return None
+
+    def call_closure_sync(self, st, f, argvals):
+        """call a closure / fn item to completion from inside a model (must not fork)"""
+        e = self.eng
+        body, clo = closure_body_of(e, st, f)
+        if body is None and isinstance(f, VConst):
+            body = self.resolve_fn_item(f.text)
+            clo = None
+        if body is None:
+            raise Unsupported(f"cannot call {f!r}")
+        args = list(argvals)
+        if clo is not None:
+            co = st.alloc(clo)
+            args = [VRef(('obj', co), (), True) if body.arg_types[0].startswith('&') else clo] + args
+        depth = len(st.frames)
+        e.push_call(st, body, args)
+        ny = st.meta.get('no_yield')
+        st.meta['no_yield'] = True
+        leaves = list(e.run(st, stop_depth=depth))
+        st.meta['no_yield'] = ny
+        if len(leaves) != 1 or leaves[0] is not st:
+            raise Unsupported("closure called from a model forked")
+        rv = st.result if st.status == 'returned' else st.meta.pop('ret', None)
+        st.status = 'running'
+        return rv
+
+    def m_slice_iter(self, e, st, fr, t, args):
+        ref = args[0]
+        v = deref_arg(e, st, ref)
+        if not (isinstance(v, VAgg) and v.name == 'Vec'):
+            return NotImplemented
+        base = _target_of_pin(e, st, ref)
+        # a borrowing iterator: items are references to the elements.  Vec keeps its items in extra -> materialise
+        # them as fields of a snapshot object so that references have a stable target
+        snap = st.alloc(VAgg(name='VecSnapshot', fields={('f', i): x for i, x in enumerate(v.extra['items'])}))
+        return VAgg(name='VecIter', extra={'items': tuple(VRef(('obj', snap), (('f', i),), False) for i in range(len(v.extra['items']))), 'idx': 0, 'owning': False})
+
+    def m_filter_map(self, e, st, fr, t, args):
+        it, f = args
+        if not (isinstance(it, VAgg) and it.name == 'VecIter'):
+            return NotImplemented
+        out = []
+        for x in it.extra['items'][it.extra['idx']:]:
+            r = self.call_closure_sync(st, f, [x])
+            d = e.concrete_int(st, e.discriminant_of(st, r))
+            if d is None:
+                raise Unsupported("filter_map closure returned a symbolic Option")
+            if d == 1:
+                out.append(r.fields[('v', 'Some', 0)])
+        return VAgg(name='VecIter', extra={'items': tuple(out), 'idx': 0, 'owning': False})
+
+    def m_try_for_each(self, e, st, fr, t, args):
+        it, f = args
+        if not (isinstance(it, VAgg) and it.name == 'VecIter'):
+            return NotImplemented
+        for x in it.extra['items'][it.extra['idx']:]:
+            r = self.call_closure_sync(st, f, [x])
+            d = e.concrete_int(st, e.discriminant_of(st, r))
+            if d is None:
+                raise Unsupported("try_for_each closure returned a symbolic result")
+            if d == 1:
+                return r          # first Err ends the iteration
+        return ok(UNIT)
+
+    def m_into_sender(self, e, st, fr, t, args):
+        v = args[0]
+        if isinstance(v, VAgg) and v.name == 'Addr':
+            return e.dispatch(st, fr, t, args, '<sender::Sender<M> as From<Addr<A>>>::from')
+        if isinstance(v, VAgg) and v.name in ('Sender', 'sender::Sender'):
+            return v
+        raise Unsupported(f"Into<Sender> for {v!r}")
 
     def m_msg_clone(self, e, st, fr, t, args):
         """<M as Clone>::clone of a scripted message: each clone is a distinct delivery (interval ticks)"""
@@ -371,11 +448,20 @@ class Sys:
         return None
 
     # ------------------------------------------------------------------ user code (environment)
+    def actor_id(self, st, ctxref):
+        try:
+            ctx = deref_arg(self.eng, st, ctxref)
+            cid = ctx.fields[('f', 0)]
+            v = cid.fields[('f', 0)] if isinstance(cid, VAgg) else cid
+            return f"ctx{_describe(v)}"
+        except Exception:
+            return '?'
+
     def m_user(self, kind):
         def h(e, st, fr, t, args):
             n = sum(1 for ev in st.events if ev[0] == 'user_call' and ev[1] == kind) + 1
             msg = args[2] if len(args) > 2 else None
-            actor = st.meta.get('cur_actor', '?')
+            actor = self.actor_id(st, args[1]) if len(args) > 1 else '?'
             st.event('user_call', kind, n, actor, _describe(msg) if msg is not None else '')
             if args and isinstance(args[0], VRef) and args[0].mut:
                 cur = deref_arg(e, st, args[0])
@@ -495,6 +581,10 @@ class Sys:
         if mid.startswith('ctxstop') and ctx is not None:
             r = self.sync_call(st, 'context::Context::<A>::stop', [VRef(ctx.root, ctx.path, False)])
             st.event('script_result', 'ctx.stop', self.describe_result(st, r))
+        elif mid.startswith('bcast') and ctx is not None:
+            tag = 'b' + mid[5:]
+            self.sync_call(st, 'context::Context::<A>::send_to_children::<M>', [VRef(ctx.root, ctx.path, True), Msg.new(tag)])
+            st.event('script_result', 'send_to_children', tag)
         elif mid.startswith('ctxrestart') and ctx is not None:
             r = self.sync_call(st, 'context::Context::<A>::restart', [VRef(ctx.root, ctx.path, False)])
             st.event('script_result', 'ctx.restart', self.describe_result(st, r))
@@ -502,7 +592,19 @@ class Sys:
     def run_started_script(self, st, fut):
         """timer registrations performed by the user's `started` (scenario script): (kind, msg id, ticks)"""
         ctx = fut.extra.get('ctx')
-        for act in self.user_script.get('started_actions', ()):
+        who = fut.extra.get('actor')
+        acts = self.user_script.get(('started_actions', who))
+        if acts is None:
+            acts = self.user_script.get('started_actions', ()) if who in (None, '?', 'ctx0') else ()
+        for act in acts:
+            if act[0] in ('add_child', 'register_child'):
+                prog = self.program
+                h = act[1]
+                child = prog.take(st, '_reg_' + h)
+                fn = 'context::Context::<A>::add_child' if act[0] == 'add_child' else 'context::Context::<A>::register_child::<M>'
+                self.sync_call(st, fn, [VRef(ctx.root, ctx.path, True), child])
+                st.event('child_registered', act[0], h)
+                continue
             kind, mid, ticks = act
             dur = VAgg(name='Duration', extra={'ticks': ticks})
             cref = VRef(ctx.root, ctx.path, True)
